@@ -42,6 +42,14 @@ def body_strategy(st, name, level0, parent_has):
     if name == 'Items':
         elem = st.sampled_from([('ref', 'Item'), ('ref', 'Pair'), ('choice', [('ref', 'Pair'), ('ref', 'Item')]),
                                 ('choice', [('ref', 'Word'), ('ref', 'Item')]), ('seq', [('ref', 'Item'), ('ref', 'Word')])])
+        # sometimes nested so deeply that the generated code is split into helper functions: the
+        # inner references must still be late-bound when the rule is inherited
+        def deepen(t):
+            e, d, kind = t
+            for i in range(d):
+                e = ('seq', [e]) if kind == 0 or i % 2 else ('choice', [e, ('lit', 'Q')])
+            return e
+        elem = st.tuples(elem, st.sampled_from([0, 0, 0, 0, 9, 18, 26]), st.integers(0, 1)).map(deepen)
         base = st.one_of(elem.map(lambda e: ('rep', e, 1, None)), elem.map(lambda e: ('rep', e, 0, 3)),
                          elem.map(lambda e: ('sep', e, ('lit', 'c'), False, False, True, False)))
         return with_super(base)
@@ -261,6 +269,11 @@ class World:
         pname = None if parent is None else self.mods[parent]['name']
         g = level_grammar(chain, name, pname)
         desc = peg.render(g)
+        if self.problem:
+            # the history goes on growing as it would have (what the state machine draws next must
+            # not depend on what sourcer did), but nothing more is executed once a problem is recorded
+            self.mods.append({'name': name, 'chain': chain, 'module': None, 'desc': desc, 'parent': parent})
+            return self.mods[-1]
         mod, err = sut.compile_grammar(desc)
         rec = {'name': name, 'chain': chain, 'module': mod, 'desc': desc, 'parent': parent}
         self.mods.append(rec)
@@ -290,7 +303,7 @@ class World:
 
     def parse(self, mi, entry, text, force=False):
         rec = self.mods[mi % len(self.mods)]
-        if rec.get('flatmod') is None:
+        if rec.get('flatmod') is None or self.problem:
             return None
         chain = rec['chain']
         top = len(chain) - 1
@@ -429,7 +442,7 @@ class C13(Check):
 
             @rule(level=level_strategy(st, True, (), False))
             def create_base(self, level):
-                if sum(1 for m in self.world.mods if len(m['chain']) == 1) >= 2 or self.world.problem:
+                if sum(1 for m in self.world.mods if len(m['chain']) == 1) >= 2:
                     return
                 self.history.append(('create', level, None))
                 self.world.create(level, None)
@@ -442,9 +455,9 @@ class C13(Check):
             @rule(data=st.data())
             def derive(self, data):
                 w = self.world
-                if w.problem or len(w.mods) >= 7:
+                if len(w.mods) >= 7:
                     return
-                cands = [i for i, m in enumerate(w.mods) if len(m['chain']) < 3 and m.get('flatmod') is not None]
+                cands = [i for i, m in enumerate(w.mods) if len(m['chain']) < 3]
                 if not cands:
                     return
                 parent = data.draw(st.sampled_from(cands))
@@ -460,7 +473,7 @@ class C13(Check):
                   data=st.data())
             def parse(self, mi, entry, data):
                 w = self.world
-                if w.problem or not w.mods:
+                if not w.mods:
                     return
                 if all(len(m['chain']) == 1 for m in w.mods) and mi % 4:
                     return      # spend most parses on histories that already contain a derived module
